@@ -9,7 +9,29 @@ one() {
   git -C /repo worktree remove --force $WT >/dev/null 2>&1
   git -C /repo worktree add -q --detach $WT HEAD || return
   git -C $WT apply "$PWD/seeded/$N/patch.diff" || { echo "$N patch does not apply" >> .work/seed_matrix.txt; git -C /repo worktree remove --force $WT; return; }
-  for P in C01 C02 C03 C04 C05 C06 C07 C08 C09 C10 C11 C12 C13 C14 C15 C16 C17 C18 C19 C20; do
+  # lean mode (default): the fifteen checks that take a few seconds each run against every change; the five
+  # that take 20-80 s (C04 C12 C16 C18 C19) run against the changes written for them and against the changes
+  # known to concern them (ALSO below). MATRIX_MODE=full runs all twenty against every change.
+  T=$(echo $N | grep -o 'C[0-9][0-9]')
+  PROPS="C01 C02 C03 C05 C06 C07 C08 C09 C10 C11 C13 C14 C15 C17 C20"
+  case " C04 C12 C16 C18 C19 " in *" $T "*) PROPS="$PROPS $T";; esac
+  case $N in
+    R2-C01-A|R2-C04-A|R2-C07-A|R4-C07-A) PROPS="$PROPS C19";;
+  esac
+  case $N in
+    R2-C04-A|R2-C14-A|C19-A|R2-C19-A|R3-C19-B|R4-C19-A|C17-A|R3-C17-B|R4-C05-A|R2-C10-A|C03-A|R3-C03-A) PROPS="$PROPS C04";;
+  esac
+  case $N in
+    R2-C09-A|R4-C06-A|R4-C07-A|R2-C11-A) PROPS="$PROPS C18";;
+  esac
+  case $N in
+    R4-C05-A|R2-C10-A|R2-C02-A|R2-C08-A|R2-C13-A) PROPS="$PROPS C16";;
+  esac
+  case $N in
+    C06-B|R3-C06-A|R2-C12-A|R3-C03-A) PROPS="$PROPS C12";;
+  esac
+  [ "${MATRIX_MODE:-lean}" = full ] && PROPS="C01 C02 C03 C04 C05 C06 C07 C08 C09 C10 C11 C12 C13 C14 C15 C16 C17 C18 C19 C20"
+  for P in $(echo $PROPS | tr ' ' '\n' | sort -u); do
     out=$(VERIF_REPO=$WT VERIF_EVIDENCE_DIR=$PWD/.work/seedmx-ev-$N timeout 1800 ./check $P quick 2>&1); rc=$?
     nv=$(echo "$out" | grep -c '^VIOLATION')
     first=$(echo "$out" | grep -m1 'kind=' | cut -c1-160)
@@ -19,4 +41,4 @@ one() {
   rm -rf .work/seedmx-ev-$N bin/vcheck*._tmp_seedmx_${N//-/_}_
 }
 export -f one
-echo $names | tr ' ' '\n' | xargs -P 4 -I{} bash -c 'one {}'
+echo $names | tr ' ' '\n' | xargs -P 5 -I{} bash -c 'one {}'
